@@ -4,5 +4,5 @@
 import sys
 sys.path[:0] = ["/repo/pulser-core", "/repo/pulser-simulation", "/verif"]
 from symx.replay import replay
-sys.exit(replay(check='checks.c07', kernel='seq', shape={'device': 'mock', 'channels': [('a', 'raman_global', None), ('b', 'raman_local', 'q0'), ('r', 'rydberg_global', None)], 'program': [['add', 'a', 'min-delay', 32, True], ['add', 'b', 'no-delay', 16, False]]},
-                assignment={'ph0': -1440, 'post0': 1, 'ph1': -1440}, label='k2:not_before_last_shift'))
+sys.exit(replay(check='checks.c07', kernel='seq', shape={'device': 'mock', 'channels': [('a', 'raman_global', None), ('b', 'raman_local', 'q1'), ('r', 'rydberg_global', None)], 'program': [['add', 'b', 'min-delay', 32, False], ['shift', ['q1'], 'digital'], ['shift', ['q0', 'q2'], 'digital'], ['add', 'a', 'no-delay', 16, False]]},
+                assignment={'ph0': 0, 'phi1': 1, 'phi2': 1, 'ph3': 0}, label='k2:not_before_last_shift'))
